@@ -1,4 +1,5 @@
 (* C16 - Each supported language has its own printable name. *)
+From B39 Require Import Proofs.Calls.
 From B39 Require Import Lib.Base Model.GenTypes Model.Model Gen.Lang Proofs.Tables Proofs.Stringer.
 
 (* every integer: the declared identifier of the constant with that value, else "Language(N)";
@@ -27,6 +28,11 @@ Qed.
 
 Example C16_portuguese : String_ 9 = Ret (bytes_of_string "Portuguese"). Proof. vm_compute. reflexivity. Qed.
 Example C16_negative : String_ (-1) = Ret (bytes_of_string "Language(-1)"). Proof. vm_compute. reflexivity. Qed.
+
+(* the functions this property is about, and every package function they reach, call only what the model
+   accounts for (closed world of callees, computed on coq/Gen/Calls.v, regenerated from the source every run) *)
+Theorem C16_callees : reach_ok "Language.String" = true /\ reach_ok "Language.list" = true /\ reach_ok "Language.mapping" = true.
+Proof. exact calls_lang. Qed.
 
 Print Assumptions C16_names.
 Print Assumptions C16_supported.
